@@ -151,6 +151,12 @@ def gen(tier, rng):
         for A in (ALL64 if tag == "sat" else [I32, U32, I8]):
             R = promote(A)
             L.append(Line("clang/%s/-%s" % (tag, A.short), A, R, "return unwrap(-wrap<%s>(a));" % oi(A, tag), "return -a;", zones_for(lambda a: -a, A, R, -1), tag=tag, exact=(lambda a: -a), meta=dict(op="neg", A=A.short)))
+        # ---- increment / decrement, prefix and postfix: the operand keeps its type, so the exact a +- 1 must fit it
+        # (seeded change M-C11-5: the postfix forms re-dispatched with the native tag)
+        for A in ([I8, U8, I16, U16, I32, U32, I64, U64] if tag == "sat" else [I32, U32, I8]):
+            for nm, stmt, f, sgn in (("pre++", "++x;", (lambda a: a + 1), 1), ("post++", "x++;", (lambda a: a + 1), 1), ("pre--", "--x;", (lambda a: a - 1), 1), ("post--", "x--;", (lambda a: a - 1), 1)):
+                L.append(Line("clang/%s/%s/%s" % (tag, nm, A.short), A, A, "auto x = wrap<%s>(a); %s return unwrap(x);" % (oi(A, tag), stmt),
+                              "return static_cast<%s>(a %s 1);" % (A.name, "+" if "++" in nm else "-"), zones_for(f, A, A, sgn), tag=tag, exact=f, meta=dict(op=nm, A=A.short)))
         # ---- conversions (integer sources): exact iff inside the destination's range
         for S in (ALL64 if tag == "sat" else [I32, U32, I64]):
             for D in (ALL64 if tag == "sat" else [I8, U8, I32, U32]):
